@@ -306,7 +306,16 @@ def is_ignored_path(file_path: str, ignore_patterns: list[str]) -> bool:
     Returns:
         True if the path should be ignored
     """
-    return any(ignored in file_path for ignored in ignore_patterns)
+    if any(ignored in file_path for ignored in ignore_patterns):
+        return True
+    # Documented glob forms ("*.rs", "src/generated/**", "**/legacy.py"), matched like the
+    # repository-level ignore list against the path inside the project
+    from src.linter_config.pattern_utils import (  # pylint: disable=import-outside-toplevel
+        matches_pattern,
+    )
+
+    relative = file_path.lstrip("/")
+    return any(matches_pattern(relative, pattern) for pattern in ignore_patterns)
 
 
 def get_line_context(code: str, line_index: int) -> str:
